@@ -83,6 +83,7 @@ def run(repo, rep, tier):
     r6 = rep.rule('C15.R6', 'path completion in the traditional fallback')
     from .c04 import explicit_namespace_wins
     explicit_namespace_wins(repo, rep, 'C15.R7')
+    pull_switch_rule(repo, rep)
     conn = repo.cls(OPS, 'WBEMConnection')
     iters = iter_operations(repo)
     if len(iters) != 7:
@@ -522,3 +523,49 @@ def run(repo, rep, tier):
             rep.finding(r2, init.qualname, fl, 'flag-init', OPS,
                         init.node.lineno, '%s is not initialised from '
                         'use_pull_operations' % fl)
+
+
+def pull_switch_rule(repo, rep):
+    """C15.R8: a mock server with pull operations disabled refuses *every*
+    Open..., Pull... and CloseEnumeration request with
+    CIM_ERR_NOT_SUPPORTED, before doing anything else.  The Iter*
+    operations learn from that refusal of the Open that they must use the
+    traditional operation; if one Open handler lacks the check, its Iter*
+    operation takes the pull branch against a server whose Pull and Close
+    are refused (partial result, then an error, and a context that stays
+    open)."""
+    MAINF = 'pywbem_mock/_mainprovider.py'
+    r8 = rep.rule('C15.R8', 'every Open/Pull/Close handler of the mock '
+                  'server checks the pull switch first')
+    mp = repo.cls(MAINF, 'MainProvider')
+    for n, f in sorted(mp.methods.items()):
+        if not (n.startswith('Open') or n.startswith('Pull') or
+                n == 'CloseEnumeration'):
+            continue
+        r8.sites += 1
+        r8.functions.add(f.fq)
+        first = None
+        for st in f.body:
+            calls = [c for c in ast.walk(st) if isinstance(c, ast.Call) and
+                     (dotted(c.func) or '').startswith('self.')]
+            if isinstance(st, ast.Assert):
+                continue
+            if calls:
+                first = calls[0]
+                break
+        ok = first is not None and \
+            dotted(first.func) == 'self._validate_pull_operations_enabled'
+        r8.ob(ok, n, {'first_call': norm(first, 50) if first is not None
+                      else None})
+        if not ok:
+            rep.finding(r8, f.qualname, '_validate_pull_operations_enabled',
+                        'switch-not-checked', MAINF, f.node.lineno,
+                        '%s does not start with '
+                        'self._validate_pull_operations_enabled() (first '
+                        'call: %s): with pull operations disabled this '
+                        'handler still answers, unlike its siblings'
+                        % (n, norm(first, 50) if first is not None
+                           else 'none'))
+    if r8.sites < 11:
+        raise AnalysisError('C15.R8: only %d Open/Pull/Close handlers'
+                            % r8.sites)
